@@ -183,13 +183,14 @@ theorem constraint_response_num_bundles (fe : String → Bool) (c loaded : CVal)
     none none (some 0) 9 9 h (by decide) (by decide) (by decide) (by decide) (by decide) (by decide) hg1 hg2
   exact ⟨i, hi, by simpa [inBounds] using hb⟩
 
-/-- **constraint_key_tag.**  A configured key tag is absent or within 1..65535. -/
+/-- **constraint_key_tag.**  A configured key tag is absent or a DNSSEC key tag: within 0..65535
+    (0 is a legal 16-bit checksum value; the pinned tree demanded ≥ 1, repaired in /repo b0ed181). -/
 theorem constraint_key_tag (fe : String → Bool) (c loaded ks kname key v : CVal) (keys : List (CVal × CVal))
     (h : fromDict (realEnv fe) c = .ok loaded)
     (hg : loaded.get? "ksk_keys" = some ks) (hks : ks = .map keys) (hk : (kname, key) ∈ keys)
     (hg2 : key.get? "key_tag" = some v) :
-    v = .null ∨ ∃ i, v = .int i ∧ 1 ≤ i ∧ i ≤ 65535 := by
-  rcases key_nullable_int fe c loaded ks kname key v keys "key_tag" (some 1) (some 65535) none h
+    v = .null ∨ ∃ i, v = .int i ∧ 0 ≤ i ∧ i ≤ 65535 := by
+  rcases key_nullable_int fe c loaded ks kname key v keys "key_tag" (some 0) (some 65535) none h
     (by decide) (by decide) hg hks hk hg2 with hn | ⟨i, hi, hb⟩
   · left; exact hn
   · right; exact ⟨i, hi, by simpa [inBounds] using hb⟩
